@@ -269,3 +269,419 @@ func ruleC17(c *Ctx) {
 		}
 	}
 }
+
+// ---------- DST-FRESH (C01, C03, C10)
+
+func ruleDstFresh(c *Ctx) {
+	c.Rule("DST-FRESH", "every element of a collection is decoded into storage of its own: a map value allocated for that entry, an array slot indexed by the length as incremented for that item", 3)
+	P := c.P
+	bt := getBT(P)
+	if ct := bt.byType["avro.MapCodec"]; c.Anchor(ct != nil, "avro.MapCodec") {
+		fn := ct.M["Read"]
+		key := ct.Name + ".Read/value-per-entry"
+		var rd, nw *ssa.Call
+		var assign *ssa.Call
+		for _, cs := range callsIn(fn) {
+			if cs.Iface != nil && isCodecIface(P, cs.Common.Value.Type()) && cs.Value() != nil {
+				switch cs.Iface.Name() {
+				case "Read":
+					rd = cs.Value()
+				case "New":
+					nw = cs.Value()
+				}
+			}
+			if cs.Static != nil && cs.Static.Name() == "mapassign" {
+				assign = cs.Value()
+			}
+		}
+		if rd == nil || assign == nil {
+			c.Unk(key, P.pos(fn.Pos()), "no value decode or mapassign found in the map reader")
+		} else {
+			l := innermostLoop(fn, rd.Block())
+			ok := nw != nil && l != nil && rd.Call.Args[1] == ssa.Value(nw) && assign.Call.Args[3] == ssa.Value(nw) &&
+				recvPathOfValue(fn, nw.Call.Value, 0) == recvPathOfValue(fn, rd.Call.Value, 0) &&
+				l.Blocks[nw.Block()] && oncePerIteration(fn, l, nw) && oncePerIteration(fn, l, rd) && oncePerIteration(fn, l, assign)
+			c.Check(ok, key, P.pos(rd.Pos()), "valueCodec.New(r) is called once per entry, in the entry loop, and its result is what is decoded into and assigned", "the value decoded into is not allocated once per map entry: entries whose codec does not overwrite everything (nulls, pointers, slices, nested maps) inherit or share the previous entry's value")
+		}
+		// the key is a fresh local per entry
+		var keyRead *ssa.Call
+		for _, cs := range callsIn(fn) {
+			if cs.Static != nil && cs.Static.Name() == "Read" && cs.Static.Signature.Recv() != nil && cs.Value() != nil && cs != nil && !strings.Contains(qualNameShort(cs.Static), "ReadBuf") {
+				keyRead = cs.Value()
+			}
+		}
+		if keyRead != nil {
+			X, isAddr := addrOfVar(keyRead.Call.Args[len(keyRead.Call.Args)-1])
+			l := innermostLoop(fn, keyRead.Block())
+			okKey := isAddr && typeKey(X) == "string" && l != nil
+			if okKey {
+				cv := keyRead.Call.Args[len(keyRead.Call.Args)-1].(*ssa.Convert)
+				a, isAlloc := cv.X.(*ssa.Alloc)
+				okKey = isAlloc && l.Blocks[a.Block()]
+			}
+			c.Check(okKey, ct.Name+".Read/key-per-entry", P.pos(keyRead.Pos()), "the key is decoded into a string variable created in the entry loop", "the map key is not decoded into a per-entry variable")
+		}
+	}
+	if ct := bt.byType["avro.arrayCodec"]; c.Anchor(ct != nil, "avro.arrayCodec") {
+		fn := ct.M["Read"]
+		key := ct.Name + ".Read/slot-per-item"
+		var rd *ssa.Call
+		for _, cs := range callsIn(fn) {
+			if cs.Iface != nil && cs.Iface.Name() == "Read" && isCodecIface(P, cs.Common.Value.Type()) && cs.Value() != nil {
+				rd = cs.Value()
+			}
+		}
+		if rd == nil {
+			c.Unk(key, P.pos(fn.Pos()), "no item decode found in the array reader")
+			return
+		}
+		l := innermostLoop(fn, rd.Block())
+		// the cursor uses a load of the header's Len made in the loop; Len is stored +1 once per iteration after the decode
+		lenLoadInLoop := false
+		var walk func(v ssa.Value, d int)
+		walk = func(v ssa.Value, d int) {
+			if d > 8 || v == nil {
+				return
+			}
+			switch y := v.(type) {
+			case *ssa.Convert:
+				walk(y.X, d+1)
+			case *ssa.BinOp:
+				walk(y.X, d+1)
+				walk(y.Y, d+1)
+			case *ssa.UnOp:
+				if y.Op == token.MUL && strings.HasSuffix(accessPath(y.X), "->Len") && l != nil && l.Blocks[y.Block()] {
+					lenLoadInLoop = true
+				}
+			case *ssa.Call:
+				for _, a := range y.Call.Args {
+					walk(a, d+1)
+				}
+			}
+		}
+		walk(rd.Call.Args[1], 0)
+		var incr *ssa.Store
+		for _, b := range fn.Blocks {
+			for _, in := range b.Instrs {
+				if st, ok := in.(*ssa.Store); ok && strings.HasSuffix(accessPath(st.Addr), "->Len") {
+					if bo, ok := st.Val.(*ssa.BinOp); ok && bo.Op == token.ADD {
+						if one, ok := constInt(bo.Y); ok && one == 1 {
+							incr = st
+						}
+					}
+				}
+			}
+		}
+		ok := l != nil && lenLoadInLoop && incr != nil && l.Blocks[incr.Block()] && oncePerIteration(fn, l, rd) && dominatesInstr(rd, incr)
+		if ok {
+			for _, la := range l.Latches {
+				if !incr.Block().Dominates(la) {
+					ok = false
+				}
+			}
+		}
+		c.Check(ok, key, P.pos(rd.Pos()), "each item is decoded at Data + Len*size with Len read in that iteration and incremented once after the decode", "items are not decoded into consecutive slots: the slot index is not the length as incremented once per decoded item")
+	}
+}
+
+// ---------- ARR-BOUND (C05, C06)
+
+func ruleArrBound(c *Ctx) {
+	c.Rule("ARR-BOUND", "before a block's items are decoded the slice is grown by exactly the number of items the loop will store, and the growth helper guarantees capacity for length + that number", 2)
+	P := c.P
+	bt := getBT(P)
+	ct := bt.byType["avro.arrayCodec"]
+	if !c.Anchor(ct != nil, "avro.arrayCodec") {
+		return
+	}
+	fn := ct.M["Read"]
+	var rd *ssa.Call
+	for _, cs := range callsIn(fn) {
+		if cs.Iface != nil && cs.Iface.Name() == "Read" && isCodecIface(P, cs.Common.Value.Type()) && cs.Value() != nil {
+			rd = cs.Value()
+		}
+	}
+	if !c.Anchor(rd != nil, "item decode in arrayCodec.Read") {
+		return
+	}
+	l := innermostLoop(fn, rd.Block())
+	var cl *Counted
+	if l != nil {
+		cl = countedLoop(l)
+	}
+	key := ct.Name + ".Read"
+	if cl == nil || cl.TripCount() == nil {
+		c.Unk(key+"/item-loop", P.pos(rd.Pos()), "the item loop is not a recognised counted loop")
+		return
+	}
+	n := stripConv(cl.TripCount())
+	// the growth call: a module method on the receiver taking (sliceHeader, int) returning sliceHeader, before the loop
+	var grow *ssa.Call
+	for _, cs := range callsIn(fn) {
+		if cs.Static != nil && P.isModuleFunc(cs.Static) && cs.Value() != nil && cs.Static.Signature.Recv() != nil && cs.Static.Signature.Results().Len() == 1 && typeKey(cs.Static.Signature.Results().At(0).Type()) == "avro.sliceHeader" {
+			grow = cs.Value()
+		}
+	}
+	if grow == nil {
+		c.Bad(key+"/grow-before-items", P.pos(rd.Pos()), "no growth of the destination slice precedes the item loop")
+		return
+	}
+	arg := stripConv(grow.Call.Args[len(grow.Call.Args)-1])
+	stored := false
+	for _, r := range referrersOf(grow) {
+		if st, ok := r.(*ssa.Store); ok && st.Val == ssa.Value(grow) {
+			// stored through the header pointer the item addresses are computed from
+			hdr := accessPath(st.Addr)
+			if hdr != "" && strings.Contains(accessPath(rd.Call.Args[1]), hdr+"->Data") {
+				stored = true
+			}
+		}
+	}
+	okArg := arg == n && grow.Block().Dominates(cl.Header) && !l.Blocks[grow.Block()]
+	c.Check(okArg && stored, key+"/grow-by-trip-count", P.pos(grow.Pos()), "the slice is grown by exactly the item loop's trip count, once per block, and the grown header is the one the items are stored through", "the slice is grown by a different amount than the number of items the loop then stores (or into a different header): items are written past the capacity of the backing array")
+	// the helper: returns its input only under Len+n <= Cap; otherwise a header whose Cap is Len+n
+	h := grow.Call.StaticCallee()
+	hk := fnKey(h)
+	var inP, nP *ssa.Parameter
+	for _, p := range h.Params[1:] {
+		if typeKey(p.Type()) == "avro.sliceHeader" {
+			inP = p
+		} else {
+			nP = p
+		}
+	}
+	if inP == nil || nP == nil {
+		c.Unk(hk+"/shape", P.pos(h.Pos()), "growth helper does not take (sliceHeader, n)")
+		return
+	}
+	okKeep, okNew := false, false
+	isLenPlusN := func(v ssa.Value) bool {
+		bo, ok := stripConv(v).(*ssa.BinOp)
+		if !ok || bo.Op != token.ADD {
+			return false
+		}
+		a, b := accessPath(bo.X), accessPath(bo.Y)
+		return (strings.HasSuffix(a, "->Len)") && bo.Y == ssa.Value(nP)) || (strings.HasSuffix(b, "->Len)") && bo.X == ssa.Value(nP))
+	}
+	for _, r := range returnsOf(h) {
+		v := resolvedResults(r)[0]
+		ld, isLoad := v.(*ssa.UnOp)
+		if !isLoad {
+			continue
+		}
+		a, _ := ld.X.(*ssa.Alloc)
+		isInput := false
+		if a != nil {
+			for _, rr := range referrersOf(a) {
+				if st, ok := rr.(*ssa.Store); ok && st.Addr == ssa.Value(a) && st.Val == ssa.Value(inP) {
+					isInput = true
+				}
+			}
+		}
+		if isInput {
+			for _, cmp := range cmpFactsAt(r.Block()) {
+				if cmp.Op == token.LEQ && isLenPlusN(cmp.X) && strings.HasSuffix(accessPath(cmp.Y), "->Cap)") {
+					okKeep = true
+				}
+				if cmp.Op == token.GEQ && isLenPlusN(cmp.Y) && strings.HasSuffix(accessPath(cmp.X), "->Cap)") {
+					okKeep = true
+				}
+			}
+			continue
+		}
+		// a new header: its Cap field (through the literal copy) is Len+n and the array is allocated with that Cap
+		if a != nil {
+			capLoad := &ssa.UnOp{}
+			_ = capLoad
+			for _, cs := range callsIn(h) {
+				if cs.Static != nil && cs.Static.Name() == "unsafe_NewArray" {
+					if ldc, ok := cs.Common.Args[1].(*ssa.UnOp); ok {
+						if v2 := fieldThroughStructCopy(ldc); v2 != nil && isLenPlusN(v2) {
+							okNew = true
+						}
+						if st := reachingStore(ldc); st != nil && isLenPlusN(st.Val) {
+							okNew = true
+						}
+					}
+					if isLenPlusN(cs.Common.Args[1]) {
+						okNew = true
+					}
+				}
+			}
+		}
+	}
+	c.Check(okKeep && okNew, hk+"/capacity", P.pos(h.Pos()), "returns its input only where Len+n <= Cap, otherwise a new array of exactly Len+n elements", "the growth helper can return a slice whose capacity is below Len+n")
+}
+
+// ---------- RC-VARINT (C17)
+
+func ruleRCVarint(c *Ctx) {
+	c.Rule("RC-VARINT", "a varint is accepted only within ten bytes, and a tenth byte only if it contributes a single bit (no 64-bit overflow)", 1)
+	P := c.P
+	rbT := P.NamedType(P.Avro, "ReadBuf")
+	vfn := P.Method(rbT, "Varint")
+	if !c.Anchor(vfn != nil, "(*ReadBuf).Varint") {
+		return
+	}
+	var dec *ssa.Function
+	for _, cs := range callsIn(vfn) {
+		if cs.Static != nil && P.isModuleFunc(cs.Static) && len(loopsOf(cs.Static)) > 0 {
+			dec = cs.Static
+		}
+	}
+	if dec == nil && len(loopsOf(vfn)) > 0 {
+		dec = vfn
+	}
+	if !c.Anchor(dec != nil, "the varint decoding loop") {
+		return
+	}
+	key := fnKey(dec) + "/accept"
+	// the byte read in the loop and the iteration counter
+	var b ssa.Value
+	for _, cs := range callsIn(dec) {
+		if cs.Static != nil && qualNameShort(cs.Static) == "(*ReadBuf).ReadByte" && cs.Value() != nil {
+			b = extractOf(cs.Value(), 0)
+		}
+	}
+	var iPhi *ssa.Phi
+	for _, l := range loopsOf(dec) {
+		for _, in := range l.Header.Instrs {
+			phi, ok := in.(*ssa.Phi)
+			if !ok {
+				continue
+			}
+			if bt, isB := phi.Type().Underlying().(*types.Basic); !isB || bt.Kind() != types.Int {
+				continue
+			}
+			isCounter := false
+			for _, e := range phi.Edges {
+				if bo, ok := e.(*ssa.BinOp); ok && bo.Op == token.ADD && bo.X == ssa.Value(phi) {
+					if one, ok := constInt(bo.Y); ok && one == 1 {
+						isCounter = true
+					}
+				}
+			}
+			zeroInit := false
+			for _, e := range phi.Edges {
+				if z, ok := constInt(e); ok && z == 0 {
+					zeroInit = true
+				}
+			}
+			if isCounter && zeroInit {
+				iPhi = phi
+			}
+		}
+	}
+	if b == nil || iPhi == nil {
+		c.Unk(key, P.pos(dec.Pos()), "no byte read or zero-based iteration counter found in the decoding loop")
+		return
+	}
+	def, _ := successReturns(dec)
+	if len(def) == 0 {
+		c.Unk(key, P.pos(dec.Pos()), "no success return in the varint decoder")
+		return
+	}
+	bad := ""
+	bounds := func(facts []Cmp) (iMax int64, bMax int64) {
+		iMax, bMax = 1<<40, 255
+		for _, cmp := range facts {
+			x, y, op := cmp.X, cmp.Y, cmp.Op
+			if _, isK := x.(*ssa.Const); isK {
+				x, y, op = y, x, swapOp(op)
+			}
+			k, ok := constInt(y)
+			if !ok {
+				continue
+			}
+			var tgt *int64
+			if x == ssa.Value(iPhi) {
+				tgt = &iMax
+			} else if stripConv(x) == b || x == b {
+				tgt = &bMax
+			} else {
+				continue
+			}
+			switch op {
+			case token.LEQ:
+				if k < *tgt {
+					*tgt = k
+				}
+			case token.LSS:
+				if k-1 < *tgt {
+					*tgt = k - 1
+				}
+			case token.EQL:
+				if k < *tgt {
+					*tgt = k
+				}
+			}
+		}
+		return
+	}
+	for _, r := range def {
+		blk := r.Block()
+		var edges [][]Cmp
+		nonBack := 0
+		for _, p := range blk.Preds {
+			if !blk.Dominates(p) {
+				nonBack++
+			}
+		}
+		if nonBack <= 1 {
+			edges = append(edges, cmpFactsAt(blk))
+		} else {
+			for _, p := range blk.Preds {
+				edges = append(edges, cmpFactsOnEdge(p, blk))
+			}
+		}
+		for _, facts := range edges {
+			iMax, bMax := bounds(facts)
+			// is the index known to differ from 9 on this edge?
+			ne9 := false
+			for _, cmp := range facts {
+				if cmp.Op == token.NEQ && cmp.X == ssa.Value(iPhi) {
+					if k, ok := constInt(cmp.Y); ok && k == 9 {
+						ne9 = true
+					}
+				}
+			}
+			switch {
+			case iMax > 9:
+				bad = fmt.Sprintf("a terminating byte is accepted at index up to %d (an eleventh byte)", iMax)
+			case iMax == 9 && !ne9 && bMax > 1:
+				bad = "a tenth byte is accepted although it may carry more than one bit (the value overflows 64 bits)"
+			}
+		}
+	}
+	c.Check(bad == "", key, P.pos(def[0].Pos()), "accepted only with index <= 9, and at index 9 only a byte <= 1", "the decoder accepts more than the encoding allows: "+bad)
+}
+
+// ---------- TS-NODUR (C19)
+
+func ruleTSNoDur(c *Ctx) {
+	c.Rule("TS-NODUR", "a day count is never routed through time.Duration, whose ±292-year range is far smaller than the int32 day range the date type covers", 2)
+	P := c.P
+	bt := getBT(P)
+	ct := bt.byType["time.DateCodec"]
+	if !c.Anchor(ct != nil, "time.DateCodec") {
+		return
+	}
+	isDur := func(t types.Type) bool { return typeKey(t) == "time.Duration" }
+	for _, m := range []string{"Read", "Write"} {
+		fn := ct.M[m]
+		bad := ""
+		for _, b := range fn.Blocks {
+			for _, in := range b.Instrs {
+				if v, ok := in.(ssa.Value); ok && isDur(v.Type()) {
+					bad = P.pos(in.Pos())
+				}
+				for _, op := range in.Operands(nil) {
+					if *op != nil && isDur((*op).Type()) {
+						bad = P.pos(in.Pos())
+					}
+				}
+			}
+		}
+		c.Check(bad == "", ct.Name+"."+m+"/no-duration", P.pos(fn.Pos()), "no time.Duration value is involved", "a time.Duration is computed at "+bad+": dates more than 292 years from 1970 overflow or saturate and decode to a different day")
+	}
+}
